@@ -69,6 +69,9 @@ def build_spec(seed: int, tier: str, enum_index: int | None = None, doc_seed: in
         "config": {"literal_enums": a.random() < 0.2, "generate_all_tags": a.random() < 0.2},
         "step_limit": STEP_LIMIT,
         "mode": "tree",
+        # state of the output location before the command: absent (the usual case), or an existing directory
+        # with content, with or without --overwrite: a rejected document must leave it untouched either way
+        "precreate": a.choice([None, None, None, None, "with-overwrite", "with-overwrite", "without-overwrite"]),
     }
     if enum_index is not None:
         space = faults.single_fault_space(doc)
@@ -183,6 +186,13 @@ def run_spec(args: dict, sandbox: str) -> dict:
     out = os.path.join(P, "out")
     if spec["output"] == "explicit":
         argv += ["--output-path", out]
+        if spec.get("precreate"):
+            os.makedirs(os.path.join(out, "keep"))
+            for rel, data in (("README.md", b"# an earlier client\n"), ("keep/notes.txt", b"user notes\n"), ("pyproject.toml", b"[tool.old]\n")):
+                with open(os.path.join(out, rel), "wb") as f:
+                    f.write(data)
+            if spec["precreate"] == "with-overwrite":
+                argv.append("--overwrite")
     os.chdir(work)
     before = genrun.snapshot(P)
     seam = fsseam.FsSeam(P)
@@ -205,7 +215,10 @@ def run_spec(args: dict, sandbox: str) -> dict:
     violations: list[dict] = []
     diags = res["diagnostics"]
     outcome = "?"
-    if res["base_exception"]:
+    if seam.escapes:
+        e0 = seam.escapes[0]
+        violations.append({"kind": "write-outside-sandbox", "locus": e0["op"], "detail": f"mutating {e0['op']} on {e0['path']} attempted outside the sandbox (blocked); argv={argv}"})
+    elif res["base_exception"]:
         if res["exception"] == "StepBudgetExceeded":
             # one class for all step-budget hangs: where the budget happens to trip is not a stable locus
             violations.append({"kind": "hang-steps", "locus": "", "detail": f"no termination within {budget.limit} steps (tripped in {budget_locus(budget)}); argv={argv}"})
@@ -263,6 +276,8 @@ def run_spec(args: dict, sandbox: str) -> dict:
         "multi-fault": 1 if len(applied) > 1 else 0,
         "url-without-content-type": 1 if ch["kind"] == "url" and ch.get("content_type") is None else 0,
         "fail-on-warning-with-warnings": 1 if spec["fail_on_warning"] and outcome == "warnings" else 0,
+        "existing-output+overwrite+rejected": 1 if spec.get("precreate") == "with-overwrite" and spec["output"] == "explicit" and outcome == "rejected" else 0,
+        "existing-output-without-overwrite": 1 if spec.get("precreate") == "without-overwrite" and spec["output"] == "explicit" else 0,
     }
     return {
         "violations": violations,
@@ -364,6 +379,8 @@ def shrink_candidates(spec: dict) -> list[dict]:
         out.append(variant(fail_on_warning=False))
     if spec["output"] != "explicit":
         out.append(variant(output="explicit"))
+    if spec.get("precreate"):
+        out.append(variant(precreate=None))
     if spec["meta"] != "none":
         out.append(variant(meta="none"))
     if any((spec.get("config") or {}).values()):
